@@ -45,7 +45,10 @@ def run_history(h, ctx, farmer=None):
     d = common.fresh_dir('crop')
     failfile = os.path.join(d, 'failcodes.json')
     os.environ[fns.FAIL_ENV] = failfile
-    f = sweeps.make_rec(sorted_sweep(sw), kind)
+    if 'ds' in kind:
+        f = sweeps.make_rec(sorted_sweep(sw), kind, as_xr=True, dims={n: ['i%d' % d for d in range(len(sh))] for n, sh, _ in kind['ds']})
+    else:
+        f = sweeps.make_rec(sorted_sweep(sw), kind)
     loc = os.path.join(d, '.xyz-t')
     crop, obs = None, []
     sz = sweeps.sizes(sorted_sweep(sw))
